@@ -217,6 +217,18 @@ func runLimitGrid(t *testing.T, size uint64, viaRPC bool, unstable bool) {
 	sd := LiveRef(x.M.Root.Children["sizes"])
 	max := lim.MaxFileSize
 	ends := []uint64{max - BlockSize - 1, max - 2, max - 1, max, max + 1, max + 2, max + BlockSize, 1 << 32, 1<<32 + 1, 1 << 40, 1 << 63, 1<<63 + 1, ^uint64(0) - 4095, ^uint64(0) - 1, ^uint64(0)}
+	// a CREATE that carries a size beyond the limit among its initial attributes
+	for j, end := range ends {
+		if end <= max {
+			continue
+		}
+		gr.must(x.CreateWithSize(sd, fmt.Sprintf("cs%d", j), end, j%2 == 0))
+		gr.req(true, "create-with-size", end)
+		if n := sd.N.Children[fmt.Sprintf("cs%d", j)]; n != nil {
+			gr.must(x.Read(LiveRef(n), 0, 4096))
+			gr.must(x.Write(LiveRef(n), 0, patternData(uint32(300+j), 100), 100, nt.FILE_SYNC))
+		}
+	}
 	for j, end := range ends {
 		nl := near(end, max) || end > 1<<62
 		// through SETATTR
